@@ -1,5 +1,5 @@
 CONSTANTS K = 5
-  Families = {"nest", "h12", "h3", "h4", "hbig", "s_subq", "s_wob", "s_stair"}
+  Families = {"nest", "nest2", "h12", "h3", "h4", "hbig", "s_subq", "s_wob", "s_wob2", "s_stair"}
   Emit = TRUE
 INIT Init
 NEXT Next
